@@ -1215,3 +1215,7 @@ def vf_uf256(ex, st, args, ins):
     for i in range(8):
         st.mem.store(sp + 4 * i, 4, z3.Extract(255 - 32 * i, 224 - 32 * i, r))
     return None
+
+import netmodel as _netmodel
+_netmodel.register(builtin)
+SYNC_POINTS |= {'epoll_wait', 'write', 'read'}
